@@ -531,8 +531,10 @@ var bitTypes = []string{"bit", "bit varying"}
 var rawValues = []string{"1", "0", "-1", "42", "2147483647", "-9223372036854775808", "3.14", "-0.5", "1e+20", "NaN", "Infinity", "-Infinity", "0.000001", "12345678901234567890.123456789"}
 var textValues = []string{"", "Hello", "World", "null", "unchanged-toast-datum", "it's", "'", "''", "'''", "it's''", "a b", " lead", "trail ", "a]b", "[x]:y",
 	"a:b", "]:", "line1\nline2", "ñandú", "日本語", "x' y[int]:1", "B'1'", "\"q\"", "tab\there", "(no-tuple-data)", "1", "true",
-	"{1,2,3}", "{\"a b\",\"c\"}", "(1,\"x y\")", "2026-09-30 12:00:00+00", "{\"k\": \"v's\"}", "\\x00ff", "a' b[text]:'c", "' ", " '", "new-tuple: a[int]:1", "\U0001F600"}
-var valueAlphabet = []string{"a", " ", "'", "]", "[", ":", "\"", "\n", "0", "é", "(", ",", "B"}
+	"{1,2,3}", "{\"a b\",\"c\"}", "(1,\"x y\")", "2026-09-30 12:00:00+00", "{\"k\": \"v's\"}", "\\x00ff", "a' b[text]:'c", "' ", " '", "new-tuple: a[int]:1", "\U0001F600",
+	// backslashes are printed as they are (print_literal doubles single quotes only)
+	"\\\\fileserver\\public", "C:\\temp", "^\\\\d+$", "a\\\\\\b", "\\'", "'\\\\'", "{\"re\": \"\\\\w+\"}", "%d 100% %s", "\t\\n"}
+var valueAlphabet = []string{"a", " ", "'", "]", "[", ":", "\"", "\n", "0", "é", "(", ",", "B", "\\", "\\\\", "%", "\t", "\r", "\x00"}
 
 func genType(rng *rand.Rand) (typ string, class string) {
 	arr := rng.Intn(5) == 0
